@@ -60,7 +60,8 @@ pub struct Scn {
 const PROBE_LAT: u64 = 20;
 
 pub fn gen(rng: &mut Rng) -> Scn {
-    let max = rng.range(1, 4) as u32;
+    // u32::MAX stands for usize::MAX ("no limit" written as a number of calls)
+    let max = if rng.chance(1, 12) { u32::MAX } else { rng.range(1, 4) as u32 };
     // u64::MAX stands for Duration::MAX ("wait for ever", written as a finite setting)
     let max_wait = *rng.pick(&[None, None, Some(0u64), Some(0), Some(5), Some(10), Some(10), Some(25), Some(25), Some(u64::MAX)]);
     let n = rng.range(2, 12) as usize;
@@ -102,7 +103,7 @@ pub fn gen(rng: &mut Rng) -> Scn {
         max,
         max_wait,
         callers,
-        probes: max + 1,
+        probes: if max == u32::MAX { 3 } else { max + 1 },
         probe_at: 1000,
         listener_panic: faulty && rng.chance(1, 5),
         knobs: SchedKnobs::gen(rng, faulty, 60),
@@ -111,13 +112,13 @@ pub fn gen(rng: &mut Rng) -> Scn {
 
 pub fn valid(s: &Scn) -> bool {
     s.max >= 1
-        && s.max <= 8
+        && (s.max <= 8 || s.max == u32::MAX)
         && s.callers.len() <= 16
         && !s.callers.is_empty()
         && s.callers.iter().all(|c| c.start_ms <= 500 && c.beh.lat_ms <= 200 && c.beh.yields <= 4)
         && s.max_wait.map(|w| w <= 100 || w == u64::MAX).unwrap_or(true)
         && s.callers.iter().all(|c| c.hold_unpolled_ms <= 50)
-        && (s.probes == 0 || (s.probe_at >= 900 && s.probe_at <= 2000 && s.probes == s.max + 1))
+        && (s.probes == 0 || (s.probe_at >= 900 && s.probe_at <= 2000 && s.probes == if s.max == u32::MAX { 3 } else { s.max + 1 }))
         && s.knobs.jumps.iter().all(|j| j.0 <= 500 && j.1 <= 200)
         && s.knobs.jumps.len() <= 3
         && s.pre <= 4
@@ -143,7 +144,7 @@ pub fn run(s: &Scn, ctx: &mut RunCtx, prefix: &'static str) -> RunOutput {
     let total_tasks = n + s.probes as usize;
     let horizon = s.probe_at + 600;
     let cfg = s.knobs.cfg(ctx, horizon, 0);
-    let max = s.max as i64;
+    let max = if s.max == u32::MAX { i64::MAX } else { s.max as i64 };
     let scn = s.clone();
     let setup = move || {
         // scripts
@@ -166,7 +167,7 @@ pub fn run(s: &Scn, ctx: &mut RunCtx, prefix: &'static str) -> RunOutput {
             1 => BulkheadLayer::builder().reject_when_full(),
             2 => BulkheadLayer::small(),
             3 => BulkheadLayer::builder().max_wait_duration(Duration::from_millis(3)),
-            4 => BulkheadLayer::builder().max_concurrent_calls(scn.max as usize + 2),
+            4 => BulkheadLayer::builder().max_concurrent_calls(count(scn.max).saturating_add(2)),
             _ => BulkheadLayer::builder(),
         };
         let wait = scn.max_wait.map(|w| if w == u64::MAX { Duration::MAX } else { Duration::from_millis(w) });
@@ -174,9 +175,9 @@ pub fn run(s: &Scn, ctx: &mut RunCtx, prefix: &'static str) -> RunOutput {
             if let Some(w) = wait {
                 b = b.max_wait_duration(w);
             }
-            b = b.max_concurrent_calls(scn.max as usize);
+            b = b.max_concurrent_calls(count(scn.max));
         } else {
-            b = b.max_concurrent_calls(scn.max as usize);
+            b = b.max_concurrent_calls(count(scn.max));
             if let Some(w) = wait {
                 b = b.max_wait_duration(w);
             }
@@ -196,9 +197,11 @@ pub fn run(s: &Scn, ctx: &mut RunCtx, prefix: &'static str) -> RunOutput {
         }
         let layer = b.build();
         // the one shared handle per service (never cloned unless a caller clones it on arrival)
-        let shared: Vec<std::rc::Rc<std::cell::RefCell<_>>> = (0..2u8)
-            .map(|k| std::rc::Rc::new(std::cell::RefCell::new(layer.layer(SimInner::new(k)))))
-            .collect();
+        let Some(shared): Option<Vec<std::rc::Rc<std::cell::RefCell<_>>>> =
+            build_guarded("C07.admit_at_once", &format!("a bulkhead with max_concurrent_calls={}", count(scn.max)), || (0..2u8).map(|k| std::rc::Rc::new(std::cell::RefCell::new(layer.layer(SimInner::new(k))))).collect())
+        else {
+            return vec![];
+        };
         let mut defs = vec![];
         for i in 0..total_tasks {
             let (start_ms, cancel, drop_unpolled, depth, hold, which, handle) = if i < n {
@@ -509,7 +512,7 @@ pub fn run(s: &Scn, ctx: &mut RunCtx, prefix: &'static str) -> RunOutput {
     }
     // probe burst: capacity restored
     let mut probes_ran = false;
-    if s.probes > 0 {
+    if s.probes > 0 && rep.tasks.len() == total_tasks {
         let probe_fp: Vec<_> = (n..total_tasks).filter_map(|i| first_poll[i].map(|f| (i, f))).collect();
         if probe_fp.len() == s.probes as usize {
             probes_ran = true;
